@@ -19,7 +19,7 @@ REGISTRY = {
             'input (never hangs), the chain loop always consumes input (parseChains_never_hangs), and for EVERY input string the '
             'repaired parser returns an annotation or an error of the ValueError family (parse_total; the IndexError/TypeError of the '
             'code before the fix commit are decide-checked counter-examples); the serializer is a total function. Model tied to /repo '
-            'by exhaustive correspondence over all strings of <=3 (quick) / <=5 (thorough) tokens of the notation alphabet, random '
+            'by exhaustive correspondence over all strings of <=4 (quick) / <=5 (thorough) tokens of the notation alphabet, random '
             'strings of <=40 tokens and single-token mutations of valid strings; exception-class and deferred-validation oracles run on '
             'the real code (parse, serialize, is_sequence_valid, mass, comp)',
     'note': 'trusted: Lean kernel, axioms propext/Classical.choice/Quot.sound, the correspondence harness; non-ASCII text and CPython\'s '
@@ -181,17 +181,17 @@ def run(chk):
     chk.oracle('exception_class', corpus, oracle_exc)
 
     # ------------------------------------------------------------------ exhaustive over the token alphabet
-    depth = 3 if quick else 5
-    procs = 1 if quick else min(16, os.cpu_count() or 1)
+    depth = 4 if quick else 5
+    procs = min(6 if quick else 16, os.cpu_count() or 1)
     n_ex = bulk(chk, L.TOKENS, depth, procs)
     chk.exhaustive = True
     chk.count('exhaustive strings', n_ex)
 
-    # quick tier: a random sample of the 4- and 5-token strings as well
+    # quick tier: a random sample of the 5- and 6-token strings as well
     sample = []
     if quick:
         for _ in range(12000):
-            k = rng.choice([4, 4, 5])
+            k = rng.choice([5, 5, 6])
             sample.append(''.join(rng.choice(L.TOKENS) for _ in range(k)))
 
     # ------------------------------------------------------------------ random <= 40 tokens, structured noise
